@@ -12,7 +12,8 @@ lines from the real crate.
 * `attrs`: `|`-separated (`-` = none):
   `r<T>` `DW_FORM_ref4/8` attribute, `g<T>` `DW_FORM_ref_addr` attribute, `x<ops>` expression
   attribute, `l<locs>` location-list attribute with `/`-separated raw entries `<k><ops>`, `k` =
-  `n` (begin < end, yielded by `LocListIter`) | `z` (begin = end) | `i` (begin > end) | `t` (tombstone begin).
+  `n` (begin < end, yielded by `LocListIter`) | `z` (begin = end) | `i` (begin > end) | `t` (tombstone begin);
+  the three kinds the cooked iterator skips are regression inputs for fix 34014b9.
 * `<ops>`: `.`-separated operations: `n` (no reference), `c<T>` `DW_OP_call4`, `C<T>` `DW_OP_call_ref`,
   `t<T>` a typed operation (`deref_type`, `regval_type`, `const_type`, `convert`, `reinterpret` by
   target id mod 5), `p<T>` `DW_OP_GNU_parameter_ref`, `i<T>` `DW_OP_implicit_pointer`,
@@ -95,7 +96,7 @@ def parseOp (l : Layout) (u : Nat) : List Char → Option (Option OpRef)
   | ['n'] => some none
   | 'c' :: t | 't' :: t | 'p' :: t => do let v ← l.unitVal u (← parseTgt t); some (some (.unitRef v))
   | 'C' :: t => do let v ← l.secVal (← parseTgt t); some (some (.infoRef v))
-  | 'i' :: t | 'v' :: t => do let v ← l.secVal (← parseTgt t); some (some (.ignoredInfoRef v))
+  | 'i' :: t | 'v' :: t => do let v ← l.secVal (← parseTgt t); some (some (.implicitRef v))
   | ['e', 'n'] => some none
   | 'e' :: 'c' :: t | 'e' :: 't' :: t | 'e' :: 'p' :: t => do
       let v ← l.unitVal u (← parseTgt t); some (some (.nestedUnitRef v))
